@@ -332,6 +332,20 @@ func main() {
 		}
 		return false, fmt.Sprintf("path=%v class=%s shape=%s\n %s", c.Path, v.class, v.shape, v.detail)
 	})
+	r.Replayer("pair", func(raw json.RawMessage) (bool, string) {
+		var c pairCase
+		if err := json.Unmarshal(raw, &c); err != nil {
+			return false, err.Error()
+		}
+		var bad []string
+		n := runPair(c, &c, func(cc pairCase, v verdict) {
+			bad = append(bad, fmt.Sprintf("class=%s shape=%s\n %s", v.class, v.shape, v.detail))
+		})
+		if len(bad) > 0 {
+			return false, strings.Join(bad, "\n")
+		}
+		return true, fmt.Sprintf("%d lookups as the model says", n)
+	})
 	primeAll = func(g storage.Graph, u []*triple.Triple) {
 		lookup.Call(g, lookup.Query{M: lookup.Triples}, storage.DefaultLookup)
 		for _, t := range u {
@@ -351,6 +365,8 @@ func main() {
 	r.Assume("successor states are produced by replaying the BFS-shortest operation path on a fresh memory graph; every transition out of every state is replayed, which licenses merging states reached by different histories")
 	r.Assume("the universe avoids node pairs whose type+id concatenations coincide (C01/C06 own that finding)")
 	r.Assume("channels are buffered (64) so each lookup runs on the caller's goroutine; 'closed' means closed when the method returned")
+
+	levelPairs(r)
 
 	n := r.Pick(9, 11)
 	u := universe(n)
@@ -466,7 +482,7 @@ func main() {
 	}
 	r.Set("result_size_histogram", hist)
 	r.Set("nontrivial_per_method", perMethodNontrivial)
-	r.Set("rule", "BFS over all subsets of the universe x {add,remove} x {every singleton, every 2-batch}, each transition replayed plainly and with every read issued just before its last write (read, write, read); after each replayed transition: listing + 10 methods x (5 subjects x 9 predicates x 8 objects as applicable), default options; nontrivial = the model expects at least one result and at least one stored triple does not match")
+	r.Set("rule", "every unordered pair of values of the near-collision universes in every position of a triple: add tx, add ty, remove tx with the listing and all ten lookups (asked with x and with y) after each step; then BFS over all subsets of the universe x {add,remove} x {every singleton, every 2-batch}, each transition replayed plainly and with every read issued just before its last write (read, write, read); after each replayed transition: listing + 10 methods x (5 subjects x 9 predicates x 8 objects as applicable), default options; nontrivial = the model expects at least one result and at least one stored triple does not match")
 	r.Sample(map[string]interface{}{"path": paths[order[len(order)/2]], "then": ops[len(ops)/3], "query": qs[len(qs)/2]})
 	r.Sample(map[string]interface{}{"path": paths[order[len(order)-1]], "then": ops[0], "query": qs[0]})
 	r.Finish()
